@@ -230,6 +230,9 @@ func (p *peerScript) hook(c *memConn, b []byte) (int, error) {
 		waitFor(c.readerParked, time.Second)
 	case "dwr:L": // late but in time: a third of an interval after the request
 		go func() { time.Sleep(clientInterval / 3); c.deliver(dwaFor(2001, hbh, e2e)) }()
+	case "dwr:V": // very late but in time: one and a half watchdog intervals after the request
+		// (only scripted for clients whose RetransmitInterval is three watchdog intervals)
+		go func() { time.Sleep(clientInterval * 3 / 2); c.deliver(dwaFor(2001, hbh, e2e)) }()
 	case "dwr:T": // the same request answered three times
 		for i := 0; i < 3; i++ {
 			c.deliver(dwaFor(2001, hbh, e2e))
@@ -259,6 +262,15 @@ func clientApps(k int) (sv, auth, acct, vsa []*diam.AVP) {
 
 func newClient(machine *sm.StateMachine, r int, wd bool) *sm.Client {
 	return newClientApps(machine, r, wd, 0)
+}
+
+// ri: RetransmitInterval as a multiple of the watchdog interval
+func newClientRI(machine *sm.StateMachine, r int, wd bool, ri int) *sm.Client {
+	c := newClientApps(machine, r, wd, 0)
+	if ri > 1 {
+		c.RetransmitInterval = time.Duration(ri) * clientInterval
+	}
+	return c
 }
 
 func newClientApps(machine *sm.StateMachine, r int, wd bool, am int) *sm.Client {
@@ -485,7 +497,14 @@ func execWD(toks []string) string {
 	mc := newMemConn()
 	ps := &peerScript{beh: []string{"S"}, dwrBeh: flat}
 	mc.writeHook = ps.hook
-	cli := newClient(machine, R, true)
+	ri := 1
+	if v, ok := kvGet(toks, "ri"); ok {
+		ri, _ = strconv.Atoi(v)
+		if ri < 1 {
+			ri = 1
+		}
+	}
+	cli := newClientRI(machine, R, true, ri)
 	c, err := cli.NewConn(mc, "mem")
 	if err != nil || c == nil {
 		mc.Close()
@@ -527,7 +546,7 @@ func execWD(toks []string) string {
 	}
 	// wait until the script is used up or the client closes
 	want := len(flat)
-	deadline := time.Now().Add(time.Duration(want+4)*2*clientInterval + 2*time.Second)
+	deadline := time.Now().Add(time.Duration(want+4)*2*clientInterval*time.Duration(ri) + 2*time.Second)
 	for time.Now().Before(deadline) {
 		ps.mu.Lock()
 		n := ps.dwrIdx
@@ -544,7 +563,9 @@ func execWD(toks []string) string {
 			last = flat[len(flat)-1]
 		}
 		if last == "N" || last == "F" {
-			waitFor(mc.isClosed, 12*clientInterval)
+			waitFor(mc.isClosed, 12*clientInterval*time.Duration(ri))
+		} else if last == "V" {
+			time.Sleep(2 * clientInterval)
 		} else {
 			time.Sleep(clientInterval / 3)
 		}
@@ -674,6 +695,11 @@ func genSMClient(r *RNG, n int, op string, emit func(string)) {
 			}
 			emit(line)
 		}
+	case "dialtcp":
+		for _, via := range []string{"plain", "timeout", "ext"} {
+			to := 150 + r.Intn(100)
+			emit(fmt.Sprintf("smclient dialtcp via=%s to=%d wait=%d", via, to, to+60+r.Intn(60)))
+		}
 	case "wd":
 		for i := 0; i < n; i++ {
 			R := r.Intn(3)
@@ -694,6 +720,11 @@ func genSMClient(r *RNG, n int, op string, emit func(string)) {
 				}
 			}
 			line := fmt.Sprintf("smclient wd r=%d beh=%s", R, strings.Join(cyc, "/"))
+			if r.Chance(25) { // RetransmitInterval longer than the watchdog interval; slow answers
+				line = fmt.Sprintf("smclient wd r=%d beh=%s ri=3", R, strings.ReplaceAll(strings.Join(cyc, "/"), "L", "V"))
+				emit(line)
+				continue
+			}
 			if r.Chance(30) {
 				line += fmt.Sprintf(" chat=%d", 1+r.Intn(2))
 			}
